@@ -61,6 +61,10 @@ static std::vector<ReqSpec> life_reqs()
   v.push_back(rq(4, "cbhost", 1, 2, 0));                 // 16 search; callback cancels
   v.push_back(rq(6, "cb.example.com", 1, 1, 4, AF_INET)); // 17 getaddrinfo; callback starts getaddrinfo
   v.push_back(rq(2, "a.b.example.com", 28));             // 18 query AAAA, name with >= ndots dots
+  v.push_back(rq(2, "cb.example.com", 1, 3, 3));         // 19 query; callback removes the first server from the list
+  v.push_back(rq(2, "cb.example.com", 1, 3, 1));         // 20 query; callback sets an empty server list
+  v.push_back(rq(2, "cb.example.com", 1, 3, 2));         // 21 query; callback swaps the order of the servers
+  v.push_back(rq(6, "cb.example.com", 1, 3, 3, AF_UNSPEC)); // 22 getaddrinfo; callback removes the first server
   return v;
 }
 
@@ -885,7 +889,35 @@ const Family *find_family(const std::string &name, const std::string &tier)
   else if (name == "retry-long") f = retry_long_family(tier);
   else if (name == "adversary") f = adversary_family(tier);
   else if (name == "cache") f = cache_family(tier);
-  else if (name == "opts") {
+  else if (name == "life-reconf") {
+    // completion callbacks that change the server list (remove the first server, set none, swap the order) while the
+    // library is in the middle of processing answers, timeouts or a cancel
+    f      = life_udp(tier);
+    f.name = "life-reconf";
+    f.cfgs.clear();
+    f.cfgs.push_back(cfg("2srv-2tries-edns", 2, 2, ARES_FLAG_EDNS));
+    f.cfgs.push_back(cfg("2srv-1try-usevc", 2, 1, ARES_FLAG_USEVC));
+    {
+      Cfg c             = cfg("2srv-2tries-stayopen-umq1", 2, 2, ARES_FLAG_STAYOPEN);
+      c.udp_max_queries = 1;
+      f.cfgs.push_back(c);
+    }
+    {
+      Cfg c       = cfg("2srv-1try-fd-numbers-reused", 2, 1, 0);
+      c.reuse_fds = true;
+      f.cfgs.push_back(c);
+    }
+    f.req_menu   = { 19, 20, 21, 22, 0, 4 };
+    f.replies    = { RK_DATA, RK_SERVFAIL, RK_FORMERR_NOOPT, RK_TC };
+    f.faults     = { FS_SEND_REFUSED, FS_RECV_RESET };
+    f.fault_skips = { 0 };
+    f.fault_skip_sites.clear();
+    f.setservers = {};
+    f.evmask     = EVBIT(EV_REQ) | EVBIT(EV_REPLY) | EVBIT(EV_IO) | EVBIT(EV_TIMER) | EVBIT(EV_CANCEL) | EVBIT(EV_FAULT) | EVBIT(EV_TCP);
+    f.max_req    = tier == "quick" ? 2 : 3;
+    f.max_depth  = tier == "quick" ? 4 : 5;
+    f.max_dev    = 1;
+  } else if (name == "opts") {
     // configuration sweep: every single toggle and every PAIR of toggles from a table of documented options over a
     // two-server base configuration, each explored with a small alphabet (pairwise coverage of the option space; the
     // other families fix a handful of hand-picked combinations and go deeper)
